@@ -65,9 +65,9 @@ def blocked_in_read_stdin(pid):
 class Paced(object):
     """delta fed line by line; after each line: wait for quiescence, collect stdout."""
 
-    def __init__(self, args, trace=False, pager=False):
+    def __init__(self, args, trace=False, pager=False, extra_env=None):
         w = runner.workdir()
-        env = runner.base_env()
+        env = runner.base_env(extra_env)
         self.pager = pager
         self.pager_pid = None
         if pager:
@@ -213,17 +213,25 @@ def run_item(item):
     lines, roles, opts, buf, view, kind, tagged = make_case(rng)
     args = gen.to_args(opts)
     blines = [l.encode() for l in lines]
-    whole = runner.run_delta(args, b'\n'.join(blines) + b'\n')
+    # environment variables that delta consults while rendering (the pairing heuristic of the experimental variable decides
+    # which lines are compared; none of them may change *when* lines are written)
+    r4 = engine.item_rng(engine.stable_hash((seed, 'c11-env')))
+    extra_env = None
+    if r4.random() < 0.2:
+        extra_env = r4.choice([{'DELTA_EXPERIMENTAL_MAX_LINE_DISTANCE_FOR_NAIVELY_PAIRED_LINES': r4.choice(['0.5', '1.0', '0.1'])},
+                               {'DELTA_EXPERIMENTAL_MAX_LINE_DISTANCE_FOR_NAIVELY_PAIRED_LINES': '0.6', 'COLORTERM': 'truecolor'},
+                               {'BAT_THEME': 'GitHub'}, {'COLORTERM': 'truecolor'}])
+    whole = runner.run_delta(args, b'\n'.join(blines) + b'\n', env=extra_env)
     c = crashmod.classify(whole)
     if c is not None or whole.rc != 0:
         return [engine.crash_outcome(whole, ID) or inconclusive('reference run failed')]
     pager = rng.random() < 0.25
-    p = Paced(args, trace=True, pager=pager)
+    p = Paced(args, trace=True, pager=pager, extra_env=extra_env)
     if not p.pid:
         p.finish()
         return [inconclusive('could not find the delta process')]
     outs = []
-    sets = {'views': [view], 'kinds': [kind], 'buffer_sizes': [str(buf)], 'output_to': ['pager' if pager else 'stdout']}
+    sets = {'views': [view], 'kinds': [kind], 'buffer_sizes': [str(buf)], 'output_to': ['pager' if pager else 'stdout'], 'environment': sorted(extra_env or ['-'])}
     snapshots = []
     ok_q = p.quiesce()
     for k, l in enumerate(blines):
@@ -275,7 +283,7 @@ def run_item(item):
             outs.append(violated('c11:not-prefix-of-final', 'what was written after %d input lines is not a prefix of the final output' % (k + 1),
                                  None, written[-200:].decode('utf-8', 'replace'), run=whole, sets=sets, counters=counters))
             return outs
-        alone = runner.run_delta(args, b'\n'.join(blines[:k + 1]) + b'\n')
+        alone = runner.run_delta(args, b'\n'.join(blines[:k + 1]) + b"\n", env=extra_env)
         if crashmod.classify(alone) is not None or alone.rc != 0:
             outs.append(engine.crash_outcome(alone, ID) or inconclusive('prefix run failed'))
             continue
@@ -286,7 +294,7 @@ def run_item(item):
         # (a2) only the open run is held back: everything delta writes for the input before the open run (file header,
         # hunk header, earlier lines) is on stdout by now
         if role == 'hunk':
-            base = alone if open_run == 0 else runner.run_delta(args, b'\n'.join(blines[:k + 1 - open_run]) + b'\n')
+            base = alone if open_run == 0 else runner.run_delta(args, b'\n'.join(blines[:k + 1 - open_run]) + b'\n', env=extra_env)
             if crashmod.classify(base) is None and base.rc == 0 and len(written) < len(base.out) and base.out.startswith(written):
                 outs.append(violated('c11:held-back-before-open-run', 'after %d input lines (open run of changed lines: %d) only %d of the %d bytes that delta writes for '
                                      'the input before the open run are on stdout: headers or earlier lines are held back'
